@@ -16,7 +16,7 @@ template <class R, class T> static void explore(const Api<R, T> &api, int type, 
         return k;
     };
     auto path = [&](int idx, const Op *extra) {
-        Case c{type, cap, {}};
+        Case c{type, cap, {}, {}};
         std::vector<Op> rev;
         for (int i = idx; i > 0; i = nodes[i]->parent) rev.push_back(nodes[i]->via);
         c.ops.assign(rev.rbegin(), rev.rend());
@@ -60,11 +60,12 @@ template <class R, class T> static void explore(const Api<R, T> &api, int type, 
     for (auto *n : nodes) delete n;
 }
 
+static void large_capacities(bool thorough);
 static void run() {
     auto &a = vp::args();
     size_t maxcap = a.thorough() ? 6 : 4;
     vp::stats().rule = vp::fmt("enum: closure of all (implementation state, model queue) pairs for capacities 1..%zu over put(1), put(2), get, clear, override on/off "
-                               "for octet_ring and for uint32_t/int16_t rings instantiated from the macros; all observers and both iterators after every transition", maxcap);
+                               "for octet_ring and for uint32_t/int16_t rings instantiated from the macros; all observers and both iterators after every transition; scripted wrap/evict/clear phases at capacities 255..257, 65535..65537, 70000 (thorough: up to 200000)", maxcap);
     vp::stats().exhaustive = true;
     unsigned idx = 0;
     for (int type = 0; type < 3; type++)
@@ -74,6 +75,24 @@ static void run() {
             if (type == 1) explore(C19_API(u32_ring, uint32_t), 1, cap);
             if (type == 2) explore(C19_API(s16_ring, int16_t), 2, cap);
         }
+    large_capacities(a.thorough());
+}
+// large capacities (2^8 and 2^16 boundaries): scripted bulk phases with a full observation after each phase
+static void large_capacities(bool thorough) {
+    auto &a = vp::args();
+    unsigned idx = 1000;
+    std::vector<size_t> caps = {255, 256, 257, 65535, 65536, 65537, 70000};
+    if (thorough) { caps.push_back(131072); caps.push_back(200000); }
+    for (int type = 0; type < 3; type++) for (size_t cap : caps) {
+        if (idx++ % a.nshards != a.shard) continue;
+        Case c{type, cap, {}, {}};
+        c.phases = {{PUT, cap - cap / 70}, {GET, cap - cap / 35}, {PUT, cap / 50 + 3}, {OVR_ON, 1}, {PUT, cap + 7}, {GET, 5}, {OVR_OFF, 1}, {PUT, 9}, {CLEAR, 1}, {PUT, 3}, {GET, 4}};
+        vp::CaseScope scope([&] { return serialise(c); });
+        std::string r = run_case(c);
+        vp::count(c.phases.size()); vp::cls("large-capacity-scenarios"); vp::nontrivial(vp::mix(cap, type + 9000));
+        if (!r.empty()) vp::fail(r, vp::fmt("ring buffer of capacity %zu deviates from the queue model", cap), serialise(c));
+        if (vp::want_sample()) vp::sample(serialise(c));
+    }
 }
 static bool replay(const std::string &text) {
     Case c;
